@@ -28,6 +28,18 @@ def run(ctx):
     cl = None
     if nf is not None:
         cls = prog.closures_of(nf)
+        if not cls:
+            # the mapper written as a conversion (`impl From<&str> for Arg`, `args.iter().copied().map(Arg::from)`): that
+            # function is the template closure
+            for b_, t_ in nf.calls():
+                if t_.j.get("callee_name") == "map" and len(t_.args) == 2:
+                    fo = prim.origin_of_operand(nf, t_.args[1]).strip()
+                    txt = str(fo.a.get("inst") or fo.a.get("def") or fo.a.get("text") or fo.a.get("v") or "") if fo.k == "const" else ""
+                    for cand in (txt, txt.split("::<")[0]):
+                        f_ = prog.fns.get(cand) or getattr(prog, "absorbed", {}).get(cand)
+                        if f_ is not None and "exec::Arg" in cand:
+                            cls = [f_]
+                            break
         ctx.ob("R1", "template-closure", len(cls) == 1, "SingleExecMatcher::new maps its arguments with %d closure(s); one expected" % len(cls), fn=nf, nontrivial=False)
         cl = cls[0] if len(cls) == 1 else None
         # the mapped sequence is all of `args`, in order
@@ -37,7 +49,7 @@ def run(ctx):
                     names = s.rv.j["fields"]
                     ao = prim.expand_single_def_vars(nf, prim.origin_of_operand(nf, s.rv.ops[names.index("args")]))
                     cn = [c.a["name"] for c in ao.call_nodes()]
-                    ok = set(cn) <= {"collect", "map", "iter", "into_iter"} and "map" in cn and any(x.k == "arg" and x.a["name"] == "args" for x in ao.walk())
+                    ok = set(cn) <= {"collect", "map", "iter", "into_iter", "copied", "cloned"} and "map" in cn and any(x.k == "arg" and x.a["name"] == "args" for x in ao.walk())
                     ctx.ob("R1", "all-arguments-in-order", ok, "the stored template is %s; must be every argument mapped in order (no skip/rev/filter/dedup)" % ao.fmt(), fn=nf, where=prim.site(nf, b, s), how="provenance slice")
                     eo = prim.origin_of_operand(nf, s.rv.ops[names.index("executable")])
                     en = [c.a["name"] for c in eo.call_nodes()]
